@@ -233,6 +233,10 @@ def eval_arg(a):
     m = re.fullmatch(r"(\w+)(?:\.clone\(\))?", a)
     if m:
         return ("str", m.group(1))
+    # a text field written with its line breaks escaped (string literals): the same text for every single-line value
+    m = re.fullmatch(r"(\w+)\.replace\(\s*'\\n'\s*,\s*\"\\\\n\"\s*\)", a)
+    if m:
+        return ("str", m.group(1), "line-breaks-escaped")
     return ("expr", a)
 
 
